@@ -5,15 +5,14 @@
    graph of tracker.go/nick.go/channel.go over a heap (Model/TrackerImpl.v, [im_*]).
    PROVED at full strength: the sentences of the property on the plain model, for every state /
    every operation sequence; the representation invariant and the refinement
-   (no panic, invariant preserved, abstraction commutes, equal results) for EVERY map
-   enumeration order, for the operations NewNick GetNick NickInfo NickModes NewChannel
-   GetChannel Topic ChannelModes (incl. privileges and argument consumption) Me IsOn Associate.
-   PARTIAL ([_partial]): the sequence theorem is restricted to those operations.  Missing: the
-   refinement of ReNick, DelNick, DelChannel, Dissociate and Wipe (the loops that range over
-   Go maps while deleting; statement kept below).  For these the check compares, on every
-   generated sequence, the real code, the plain model and the object-graph model run under two
-   different enumeration orders. *)
-From Verif Require Import TrackerSpec TrackerImpl TrackerObs TrackerSpecFacts TrackerRefine.
+   (no panic, invariant preserved, abstraction commutes, equal results) for ALL 16 methods and
+   all operation sequences, for EVERY enumeration order of Go's map ranges (any function
+   returning a permutation of the map's entries); and: the object graph's observation of any
+   case satisfies the runtime oracle C12_ok.
+   The check additionally compares, on every generated sequence, the real code, the plain
+   model and the object-graph model run under two different enumeration orders. *)
+From Verif Require Import TrackerSpec TrackerImpl TrackerObs TrackerSpecFacts TrackerSpecLoops
+     TrackerRefine TrackerRefine2 TrackerRefine3.
 From Verif Require Consts.
 Open Scope Z_scope.
 
@@ -112,30 +111,51 @@ Proof. exact chan_parse_modes_dom. Qed.
 Theorem C12_rep_inv_init : forall me, rep_inv (im_new me) /\ abs (im_new me) = sp_new me.
 Proof. intros me. split; [exact (rep_inv_new me)|exact (abs_new me)]. Qed.
 
-(* per operation, for every enumeration order of Go's map ranges: no panic, the representation
-   invariant is preserved, the abstraction commutes and the results (snapshots) are equal *)
+(* per operation (all 16 methods), for every enumeration order of Go's map ranges: no panic,
+   the representation invariant is preserved, the abstraction commutes and the results
+   (snapshots) are equal *)
 Theorem C12_refines_op : forall enumA enumN,
   (forall m, enumA m ≡ₚ map_to_list m) -> (forall m, enumN m ≡ₚ map_to_list m) ->
-  forall o, covered o -> forall s, rep_inv s ->
+  forall o s, rep_inv s ->
   exists s' r, im_step enumA enumN s o = Some (s', r) /\ rep_inv s'
                /\ abs s' = fst (sp_step (abs s) o) /\ r = snd (sp_step (abs s) o).
-Proof. intros enumA enumN HA HN o Ho. exact (refines_covered enumA enumN HA HN o Ho). Qed.
+Proof. intros enumA enumN HA HN o. exact (refines_all enumA enumN HA HN o). Qed.
 
-(* FULL STATEMENT (not yet proved): the same without [Forall covered ops], i.e. including
-   ReNick, DelNick, DelChannel, Dissociate and Wipe:
-     forall enumA enumN, (permutation hypotheses) -> forall me ops,
-     exists s' rs, im_run enumA enumN (im_new me) ops = Some (s', rs) /\ rep_inv s'
-                   /\ abs s' = fst (sp_run (sp_new me) ops) /\ rs = snd (sp_run (sp_new me) ops). *)
-Theorem C12_refines_partial : forall enumA enumN,
+(* for EVERY operation sequence over a fresh tracker: the object graph never panics, keeps its
+   invariant, abstracts to the plain model's state and returns the plain model's results *)
+Theorem C12_refines : forall enumA enumN,
   (forall m, enumA m ≡ₚ map_to_list m) -> (forall m, enumN m ≡ₚ map_to_list m) ->
-  forall me ops, Forall covered ops ->
+  forall me ops,
   exists s' rs, im_run enumA enumN (im_new me) ops = Some (s', rs) /\ rep_inv s'
                 /\ abs s' = fst (sp_run (sp_new me) ops) /\ rs = snd (sp_run (sp_new me) ops).
 Proof.
-  intros enumA enumN HA HN me ops F.
-  destruct (run_refines_partial enumA enumN HA HN ops (im_new me) (rep_inv_new me) F) as (s' & rs & H).
+  intros enumA enumN HA HN me ops.
+  destruct (run_refines enumA enumN HA HN ops (im_new me) (rep_inv_new me)) as (s' & rs & H).
   rewrite abs_new in H. eauto.
 Qed.
+
+(* hence the representation invariant holds after every operation sequence *)
+Theorem C12_rep_inv : forall enumA enumN,
+  (forall m, enumA m ≡ₚ map_to_list m) -> (forall m, enumN m ≡ₚ map_to_list m) ->
+  forall me ops, exists s' rs, im_run enumA enumN (im_new me) ops = Some (s', rs) /\ rep_inv s'.
+Proof.
+  intros enumA enumN HA HN me ops. destruct (C12_refines enumA enumN HA HN me ops) as (s' & rs & H1 & H2 & _). eauto.
+Qed.
+
+(* the theorem's predicate is the runtime oracle: what the object graph lets a case observe
+   (return values and the query sweep after every step) satisfies C12_ok *)
+Theorem C12_impl_ok : forall enumA enumN,
+  (forall m, enumA m ≡ₚ map_to_list m) -> (forall m, enumN m ≡ₚ map_to_list m) ->
+  forall me U ops, C12_ok me U ops (im_observe enumA enumN U (im_new me) ops) = true.
+Proof. exact impl_observation_ok. Qed.
+
+(* the two removal loops arrive at the closed forms of the plain model in ANY order *)
+Theorem C12_drop_channel_any_order : forall c t t', csteps c t t' -> (forall n, ts_member t' !! (c, n) = None) ->
+  {| ts_me := ts_me t'; ts_nicks := ts_nicks t'; ts_chans := delete c (ts_chans t'); ts_member := ts_member t' |}
+  = sp_drop_channel t c.
+Proof. exact csteps_drop_channel. Qed.
+Theorem C12_wipe_any_order : forall t t', sp_inv t -> wsteps t t' -> ts_chans t' = ∅ -> t' = sp_Wipe t.
+Proof. exact wsteps_wipe. Qed.
 
 (* ---------- the hypotheses are satisfiable; the runtime oracle on a concrete sequence ---------- *)
 Definition ex_me : bytes := [109; 101]%N.                 (* "me" *)
@@ -148,8 +168,7 @@ Definition ex_ops : list op :=
    ODissociate ex_x ex_me; OGetNick ex_bo; OWipe].
 Definition ex_U : universe := {| u_nicks := [[]; ex_me; ex_al; ex_bo]; u_chans := [[]; ex_x] |}.
 
-(* both enumeration orders of the object-graph model satisfy the oracle on it — including the
-   operations outside [covered] *)
+(* both enumeration orders of the object-graph model satisfy the oracle on it (by computation) *)
 Example C12_example_std : C12_ok ex_me ex_U ex_ops (im_observe enumA_std enumN_std ex_U (im_new ex_me) ex_ops) = true.
 Proof. vm_compute. reflexivity. Qed.
 Example C12_example_rev : C12_ok ex_me ex_U ex_ops (im_observe enumA_rev enumN_rev ex_U (im_new ex_me) ex_ops) = true.
@@ -173,5 +192,9 @@ Print Assumptions C12_wipe.
 Print Assumptions C12_chan_modes_frame.
 Print Assumptions C12_rep_inv_init.
 Print Assumptions C12_refines_op.
-Print Assumptions C12_refines_partial.
+Print Assumptions C12_refines.
+Print Assumptions C12_rep_inv.
+Print Assumptions C12_impl_ok.
+Print Assumptions C12_drop_channel_any_order.
+Print Assumptions C12_wipe_any_order.
 Print Assumptions C12_example_std.
